@@ -853,8 +853,11 @@ func (kcp *KCP) flush(flushType FlushType) (nextUpdate uint32) {
 		cwnd = min(kcp.cwnd, cwnd)
 	}
 
+	// Only a full flush can transmit, so only a full flush admits: a segment
+	// admitted by an ACK-only flush would first reach the wire in a later flush,
+	// under whatever window the peer advertises by then.
 	newSegsCount := 0
-	for {
+	for flushType == IKCP_FLUSH_FULL {
 		if _itimediff(kcp.snd_nxt, kcp.snd_una+cwnd) >= 0 {
 			break
 		}
